@@ -1,0 +1,17 @@
+//go:build verif
+
+package elf
+
+import "mltwist/pkg/model"
+
+// VerifNewMemory builds a Memory out of raw blocks without reading any file.
+// Block i starts at begins[i] and holds datas[i]. It is compiled only with the
+// verif build tag and is used by the external verification harness.
+func VerifNewMemory(begins []model.Addr, datas [][]byte) (*Memory, error) {
+	blocks := make([]Block, len(begins))
+	for i := range begins {
+		blocks[i] = newBlock(begins[i], datas[i])
+	}
+
+	return newMemory(blocks)
+}
